@@ -118,7 +118,11 @@ class Stream:
                     nontriv += 1
                     if len(samples) < 4:
                         samples.append({"case": body[:300], "impl": i[:300]})
-        return {"evaluations": len(cases), "distinct_nontrivial": nontriv, "rule": self.rule, "samples": samples,
+        extra = {}
+        if hasattr(self, "compared"):
+            extra["calls_compared_with_abstract_machine"] = self.compared
+            self.compared = 0
+        return {**extra, "evaluations": len(cases), "distinct_nontrivial": nontriv, "rule": self.rule, "samples": samples,
                 "histogram": hist, "disagreements": dis, "failures": fails,
                 "model_impl_agree": len(cases) - len(dis), "release_build_cases": rel_checked}
 
@@ -255,6 +259,7 @@ def split_calls(line):
 class Scripts(Stream):
     """conforming scripts over generated/mutated/random messages (C01, C09, C20)"""
     name = "scripts"
+    compared = 0
     release_too = True
     rule = ("message = random AST (0-3 questions, 0-12 records/section over the 17 typed formats + OPT + unknown types/classes, "
             "shared-suffix names) rendered with none/greedy/random compression, 45% with 1-2 targeted mutations (RDLENGTH, counts, "
@@ -287,6 +292,55 @@ class Scripts(Stream):
             return "conforming call sequence panicked at call %d: %s" % (k, impl.split(";")[k])
         if "B(OUTSIDE" in impl:
             return "returned slice lies outside the message"
+        if pid == "C09":
+            return self.linear_oracle(line, impl, spec)
+        return None
+
+    def linear_oracle(self, line, impl, spec):
+        """every item, error and count equals what the abstract linear-pass reader prescribes"""
+        if not spec or spec == "nolinear":
+            return None
+        n, msgs, calls = split_calls(line)
+        res = impl.split(";")
+        exp = spec.split(";")
+        self.compared = getattr(self, "compared", 0)
+        last_off = -1
+        for k, (e, got) in enumerate(zip(exp, res)):
+            if e == "unspec":
+                break
+            if e in ("-", "hdr"):
+                continue
+            self.compared += 1
+            call = calls[k] if k < len(calls) else "?"
+            if e == "ok":
+                if not got.startswith("ok"):
+                    return "call %d (%s): the linear pass prescribes success, got %s" % (k, call, got[:80])
+            elif e == "err":
+                if not got.startswith("err:"):
+                    return "call %d (%s): the item is malformed/truncated, got %s" % (k, call, got[:80])
+            elif e == "done":
+                if got != "err:ReaderDone":
+                    return "call %d (%s): reader is exhausted or in error state, expected ReaderDone, got %s" % (k, call, got[:80])
+            elif e.startswith("num("):
+                if got != "ok:" + e[4:-1]:
+                    return "call %d (%s): remaining count should be %s, got %s" % (k, call, e[4:-1], got[:40])
+            elif e.startswith("unknown("):
+                if got != "err:RecordsSectionOffsetUnknown(%s)" % e[8:-1]:
+                    return "call %d (%s): offset of section %s is not known yet, got %s" % (k, call, e[8:-1], got[:80])
+            elif e.startswith("badq("):
+                if got != "err:BadQuestionsCount(%s)" % e[5:-1]:
+                    return "call %d (%s): expected BadQuestionsCount(%s), got %s" % (k, call, e[5:-1], got[:80])
+            elif e.startswith("item("):
+                f = e[5:-1].split(",")
+                op = call.split(".", 1)[1].lstrip("?").split(":")[0]
+                if op in ("q", "theq", "qref", "theqref"):
+                    m = re.match(r"ok:Q\([0-9a-f-]+,(\d+),(\d+)\)$", got) or re.match(r"ok:QR\(#\d+,(\d+),(\d+)\)$", got)
+                    if not m or [m.group(1), m.group(2)] != [f[2], f[3]]:
+                        return "call %d (%s): question should have type %s class %s, got %s" % (k, call, f[2], f[3], got[:80])
+                else:
+                    m = re.search(r"M\((\d+),(\d+),(\d+),(\d+),(\d+),(\d+),(\d+)\)", got)
+                    if not got.startswith("ok") or not m or list(m.groups()) != f:
+                        return "call %d (%s): the pass prescribes record M(%s), got %s" % (k, call, ",".join(f), got[:120])
         return None
 
 
